@@ -74,10 +74,12 @@ func vFile(p *Proposal, t *Transform) {
 	}
 }
 
-func vGenProposal(tier int, first bool) *Proposal {
+// slice > 0 fixes the type of the first transform of the first proposal (the shape space of the
+// thorough tier is split over five jobs this way).
+func vGenProposal(tier int, first bool, slice int) *Proposal {
 	p := &Proposal{ProposalNumber: vr.U8(), ProtocolID: vr.U8()}
 	spi := 0
-	if first || tier >= 2 {
+	if first {
 		spi = vSPILen(tier)
 	} else {
 		spi = vr.IntOf(0, 4)
@@ -102,7 +104,11 @@ func vGenProposal(tier int, first bool) *Proposal {
 		if tier < 0 {
 			ttype, form = 1, 1
 		} else if i == 0 && first {
-			ttype = uint8(vr.IntIn(1, 5))
+			if slice > 0 {
+				ttype = uint8(slice)
+			} else {
+				ttype = uint8(vr.IntIn(1, 5))
+			}
 			if tier == 0 {
 				form = vr.IntOf(1, 2)
 			} else {
@@ -111,7 +117,7 @@ func vGenProposal(tier int, first bool) *Proposal {
 		} else {
 			// later transforms: transforms are marshalled grouped by type, so the wire order differs
 			// from the build order unless types ascend; both cases are covered
-			if tier >= 2 {
+			if tier >= 2 && first {
 				ttype = uint8(vr.IntOf(1, 3, 5))
 				form = vr.IntOf(0, 1, 3)
 			} else {
@@ -124,14 +130,14 @@ func vGenProposal(tier int, first bool) *Proposal {
 	return p
 }
 
-func vGenSA(tier int) *SecurityAssociation {
+func vGenSA(tier int, slice int) *SecurityAssociation {
 	sa := new(SecurityAssociation)
 	np := 1
 	if tier >= 1 {
 		np = vr.IntIn(1, 2)
 	}
 	for i := 0; i < np; i++ {
-		sa.Proposals = append(sa.Proposals, vGenProposal(tier, i == 0))
+		sa.Proposals = append(sa.Proposals, vGenProposal(tier, i == 0, slice))
 	}
 	return sa
 }
@@ -198,9 +204,13 @@ func vGenEAPPayload(tier int) *PayloadEap {
 
 // VGenPayload builds one payload of IKE payload type kind (33..48, not 46).
 func VGenPayload(kind int, tier int) IKEPayload {
+	slice := 0
+	if tier >= 10 {
+		slice, tier = tier/10, tier%10
+	}
 	switch IkePayloadType(kind) {
 	case TypeSA:
-		return vGenSA(tier)
+		return vGenSA(tier, slice)
 	case TypeKE:
 		return &KeyExchange{DiffieHellmanGroup: vr.U16(), KeyExchangeData: vr.Bytes(vDataLen(tier, 1))}
 	case TypeIDi:
